@@ -28,6 +28,8 @@ const STMT = {
   selfAssign: (i) => `var a${i} = x; a${i} = y; a${i} = <Comp>{a${i}}</Comp>; __out.k${i} = () => a${i};`,
   staleAssign: (i) => `let b${i} = x; b${i} = y; __out.k${i} = () => <Comp>{b${i}}</Comp>;`,
   selfAssignFn: (i) => `function g${i}(p) { p = [p]; p = <B>{p}</B>; return p; } __out.k${i} = () => g${i}(x);`, compObj: '<Comp>{{ default: () => [x] }}</Comp>', fragNest: '<><Comp>{x}</Comp><B>{u}</B></>',
+  // element-level fast paths must not leave state behind for the next element
+  tplComp: '<Comp>{`a ${x}`}</Comp>', tplFrag: '<>{`t ${x}`}</>', tplEl: '<p>{`e ${x}`}</p>', singleEl: '<ul>{f()}</ul>', tplNested: '<p><Comp>{`n ${x}`}</Comp></p>', bareJsxAttr: '<Comp icon=<i/>>{x}</Comp>',
 };
 const STMT_KEYS = Object.keys(STMT);
 const OTHER_OPTS = [...product([[true, false], [false, true], [true, false]])].map(([mergeProps, transformOn, enableObjectSlots]) => ({ mergeProps, transformOn, enableObjectSlots }));
